@@ -160,14 +160,16 @@ def handle (args : List String) (impl : String) : R Ans :=
     let gfa := writeGfa g
     let json := toJsonRestImp g (fun d => toString (d.headD 0)) restKv
     let gfaTags := writeGfaTags g fun _ nd => s!"LN:i:{nd.seq.length}\tDA:i:{nd.data.headD 0}"
-    let model := match gfa, json, gfaTags with
-      | some a, some b, some t => s!"gfa={esc a}|json={esc b}|gfatags={esc t}"
-      | _, _, _ => "panic"
+    let dot := toDot g (fun d => toString (d.headD 0))
+    let dbg := (List.range ns.length).mapM (nodeDebug g (fun d => toString (d.headD 0)))
+    let model := match gfa, json, gfaTags, dot, dbg with
+      | some a, some b, some t, some o, some ds => s!"gfa={esc a}|json={esc b}|gfatags={esc t}|dot={esc o}|dbg={(esc ("\n".intercalate ds)).replace "|" "\\p"}"
+      | _, _, _, _, _ => "panic"
     -- property: GFA lists every node once, every adjacency exactly once (a palindromic single-k-mer end: once or
     -- twice) and nothing else; JSON well-formedness is checked by the harness with serde_json (flag `jsonok`)
     let verdict ← do
       match (impl.splitOn "|") with
-      | gfaF :: _ :: _ :: flags =>
+      | gfaF :: _ :: _ :: _ :: _ :: flags =>
         let lines := ((gfaF.drop 4).toString.splitOn "\\n").filter (· ≠ "")
         let sLines := lines.filter (·.startsWith "S\\t")
         let lLines := lines.filter (·.startsWith "L\\t")
@@ -205,7 +207,7 @@ def handle (args : List String) (impl : String) : R Ans :=
               else "ok")
       | _ => pure "FAIL:malformed-answer"
     -- the model compares the two texts only (flags are the harness's own checks)
-    let implTexts := "|".intercalate ((impl.splitOn "|").take 3)
+    let implTexts := "|".intercalate ((impl.splitOn "|").take 5)
     pure { model := if implTexts == model then impl else model, verdict }
   | "persist" :: _ => do
     -- serde round trips are outside the model: the harness reports `roundtrip=ok` or the first difference
